@@ -21,6 +21,29 @@ type cgLite struct {
 	repoTypes  []types.Type // named repository types and their pointer types
 	valueFuncs []*ssa.Function
 	cache      map[ssa.CallInstruction][]*ssa.Function
+	vta        map[ssa.CallInstruction][]*ssa.Function
+}
+
+func (g *cgLite) vtaCallees(ci ssa.CallInstruction) []*ssa.Function {
+	if g.vta == nil {
+		g.vta = map[ssa.CallInstruction][]*ssa.Function{}
+		cg := g.p.CallGraph()
+		for _, n := range cg.Nodes {
+			if n.Func == nil || !g.p.IsRepoFn(n.Func) {
+				continue
+			}
+			for _, e := range n.Out {
+				if e.Site != nil && e.Callee != nil && e.Callee.Func != nil {
+					g.vta[e.Site] = append(g.vta[e.Site], e.Callee.Func)
+				}
+			}
+		}
+		for k := range g.vta {
+			fs := g.vta[k]
+			sort.Slice(fs, func(i, j int) bool { return fs[i].String() < fs[j].String() })
+		}
+	}
+	return g.vta[ci]
 }
 
 func (p *Prog) cgl() *cgLite {
@@ -84,30 +107,12 @@ func (g *cgLite) Callees(ci ssa.CallInstruction) []*ssa.Function {
 		if g.p.IsRepoFn(f) && f.Blocks != nil {
 			out = append(out, f)
 		}
-	} else if c.IsInvoke() {
-		iface, _ := c.Value.Type().Underlying().(*types.Interface)
-		if iface != nil {
-			for _, t := range g.repoTypes {
-				if !types.Implements(t, iface) {
-					continue
-				}
-				sel := g.p.SSA.MethodSets.MethodSet(t).Lookup(c.Method.Pkg(), c.Method.Name())
-				if sel == nil {
-					continue
-				}
-				if f := g.p.SSA.MethodValue(sel); f != nil {
-					// unwrap synthetic wrappers to the declared method when possible
-					out = append(out, f)
-				}
-			}
-		}
 	} else if _, isBuiltin := c.Value.(*ssa.Builtin); !isBuiltin {
-		sig, _ := c.Value.Type().Underlying().(*types.Signature)
-		if sig != nil {
-			for _, f := range g.valueFuncs {
-				if types.Identical(f.Signature, sig) || identicalIgnoringRecv(f.Signature, sig) {
-					out = append(out, f)
-				}
+		// interface invokes and calls of function values: VTA call graph
+		// (type-flow based, seeded by CHA), restricted to repository callees.
+		for _, f := range g.vtaCallees(ci) {
+			if g.p.IsRepoFn(f) && f.Blocks != nil {
+				out = append(out, f)
 			}
 		}
 	}
